@@ -796,11 +796,11 @@ spectral_radius(const Matrix &A, int power_iters = 0) {
 #pragma omp parallel
         {
             scalar_type emax = 0;
-            value_type  dia = math::identity<value_type>();
 
 #pragma omp for nowait
             for(ptrdiff_t i = 0; i < n; ++i) {
                 scalar_type s = 0;
+                value_type  dia = math::identity<value_type>();
 
                 for(ptrdiff_t j = A.ptr[i], e = A.ptr[i+1]; j < e; ++j) {
                     ptrdiff_t  c = A.col[j];
